@@ -201,6 +201,18 @@ type PropSpec struct {
 	// Classes: further Boolean lines of the driver's answer that are counted per stream when they
 	// are 1 (coverage classes of the property, printed in the evidence file).
 	Classes []string
+	// SeenSelected: the property also says that the route filters and the handler see as the selected
+	// one is the route whose function runs (C01): a stage that saw another one is a counterexample.
+	SeenSelected bool
+}
+
+// humanOf: the readable input of a case, with its history when it has one
+func humanOf(c *Case, cfg *Config, req Req) map[string]interface{} {
+	h := Human(cfg, req)
+	if c != nil && c.Note != "" {
+		h["history"] = c.Note
+	}
+	return h
 }
 
 // CheckStreams runs the streams, compares, shrinks and searches; results go into run.
@@ -211,7 +223,7 @@ func CheckStreams(run *report.Run, p PropSpec, streams []StreamSpec) error {
 			return err
 		}
 		run.Extra["skipped_tables_F11"] = SkippedBuild
-		specFail, disagree := 0, 0
+		specFail, disagree, seenBad := 0, 0, 0
 		for _, c := range cases {
 			run.Evaluations++
 			run.TracesValidated++
@@ -229,6 +241,16 @@ func CheckStreams(run *report.Run, p PropSpec, streams []StreamSpec) error {
 			}
 			if len(run.Samples) < 4 && c.Tag == "sel" && run.Evaluations%7 == 0 {
 				run.Sample(map[string]interface{}{"stream": st.Name, "input": Human(c.Cfg, c.Req), "real": c.RealS, "model": c.ModelS})
+			}
+			if c.Note != "" {
+				run.Count(st.Name + ":with-history-or-filters")
+			}
+			if p.SeenSelected && len(c.Real.SeenOther) > 0 && seenBad < 3 {
+				seenBad++
+				run.AddViolation(report.Violation{Kind: "counterexample",
+					What: fmt.Sprintf("%s: the function of route %s ran, but to these stages Request.SelectedRoute() was another route: %s", p.ID, OpName(c.Real.Svc, c.Real.Route), strings.Join(c.Real.SeenOther, ", ")),
+					Case: c.Lines(), Human: humanOf(c, c.Cfg, c.Req), Model: c.ModelS, Real: c.RealS})
+				continue
 			}
 			wfOK := !p.NeedWF || c.Spec["WF"] == "1"
 			if p.SpecKey != "" && wfOK && c.Spec[p.SpecKey] == "0" {
@@ -274,11 +296,13 @@ func reportSpecFailure(run *report.Run, p PropSpec, c *Case) {
 	})
 	o, err := One(&cfg, req)
 	if err != nil || o.Spec[p.SpecKey] != "0" {
+		// not reproducible on a fresh container built from the table alone: the case as it was observed,
+		// with its history
 		o, cfg, req = c, *c.Cfg, c.Req
 	}
 	run.AddViolation(report.Violation{Kind: "counterexample",
 		What: fmt.Sprintf("the real outcome falsifies Spec.%sHolds", strings.ToLower(p.ID)),
-		Case: o.Lines(), Human: Human(&cfg, req), Model: o.ModelS, Real: o.RealS})
+		Case: o.Lines(), Human: humanOf(o, &cfg, req), Model: o.ModelS, Real: o.RealS})
 }
 
 func reportDisagreement(run *report.Run, p PropSpec, st StreamSpec, c *Case) {
@@ -299,7 +323,7 @@ func reportDisagreement(run *report.Run, p PropSpec, st StreamSpec, c *Case) {
 	run.AddViolation(report.Violation{Kind: "correspondence", NoInput: true,
 		What:    fmt.Sprintf("model and implementation disagree on the %s projection of stream %s; no input falsifying the property was found near it", p.ID, st.Name),
 		Theorem: "correspondence stream " + st.Name + " (projection of " + p.ID + ")",
-		Case:    o.Lines(), Human: Human(&cfg, req), Model: o.ModelS, Real: o.RealS})
+		Case:    o.Lines(), Human: humanOf(o, &cfg, req), Model: o.ModelS, Real: o.RealS})
 }
 
 // searchFalsifying evaluates the property's predicate on 2,000 further requests to the table (every
